@@ -1282,3 +1282,30 @@ func LibStacks() []string {
 	}
 	return out
 }
+
+// ---- direct access to the reference store (C14: the reference store is checked against KVStore.tla too) ----
+
+// NewDirectWorld returns a world without instances whose store can be driven operation by operation.
+func NewDirectWorld(maxAge time.Duration, tr *Tracer) *World {
+	w := &World{sc: &Scenario{}, tr: tr, rng: rand.New(rand.NewSource(1)), counts: map[string]int{},
+		insts: map[string]*Inst{}, fired: map[*Step]bool{}, expRev: map[string]uint64{}, beat: new(atomic.Int64)}
+	w.st = NewStore(maxAge)
+	return w
+}
+
+// Direct applies one operation at once and returns the item carrying its result.
+func (w *World) Direct(kind, key string, val []byte, exp uint64) *Item {
+	w.nextID++
+	it := &Item{id: w.nextID, inst: "X", kind: kind, src: "direct", key: key, val: val, exp: exp, phase: "pre", done: make(chan struct{}, 1)}
+	w.apply(it, w.tr.NowUs())
+	return it
+}
+
+// Pending returns the events queued for a watcher, in order.
+func (wt *watcher) Pending() []wev {
+	var out []wev
+	for _, it := range wt.queue {
+		out = append(out, it.ev)
+	}
+	return out
+}
